@@ -121,9 +121,11 @@ inductive AttrVal where
   | lineStringRef (idx : Nat)
   | string (bs : Bytes)
   /-- `Encoding`, `DecimalSign`, `Endianity`, `Accessibility`, `Visibility`, `Virtuality`,
-  `Language`, `AddressClass`, `IdentifierCase`, `CallingConvention`, `Inline`, `Ordering`,
-  `FileIndex`: thirteen variants with one behaviour (`DW_FORM_udata` of the raw constant) -/
+  `Language`, `AddressClass`, `IdentifierCase`, `CallingConvention`, `Inline`, `Ordering`:
+  twelve variants with one behaviour (`DW_FORM_udata` of the raw constant) -/
   | constClass (v : Nat)
+  /-- `FileIndex(id)`; `raw` is `id.map(|id| id.raw(version))` (`none` writes 0) -/
+  | fileIndex (raw : Option Nat)
   deriving DecidableEq, Repr
 
 /-! ## `UnitOffsets` -/
@@ -178,7 +180,7 @@ def attrForm (c : Enc) : AttrVal → Nat × Int
   | .debugStrRefSup _ => (DW_FORM_strp_sup, 0)
   | .lineStringRef _ => (DW_FORM_line_strp, 0)
   | .string _ => (DW_FORM_string, 0)
-  | .constClass _ | .udata _ => (DW_FORM_udata, 0)
+  | .constClass _ | .fileIndex _ | .udata _ => (DW_FORM_udata, 0)
   | .sdata _ => (DW_FORM_sdata, 0)
   | .implicitConst v => if c.version ≥ 5 then (DW_FORM_implicit_const, v) else (DW_FORM_sdata, 0)
 
@@ -226,6 +228,7 @@ def attrSize (c : Enc) (o : Offs) : AttrVal → Out Nat
   | .stringRef _ | .debugStrRefSup _ | .lineStringRef _ => .ok c.word
   | .string bs => .ok (bs.length + 1)
   | .constClass v => .ok (Leb.sizeU v)
+  | .fileIndex raw => .ok (Leb.sizeU (raw.getD 0))
 
 /-- `DebugInfoFixup` -/
 structure IFix where
@@ -347,6 +350,7 @@ def attrEmit (cx : Ctx) (pos : Nat) : AttrVal → Out Emit
     let b ← writeUdata cx.endian off cx.enc.word; pure (.ofBytes b)
   | .string bs => .ok (.ofBytes (bs ++ [0]))
   | .constClass v => .ok (.ofBytes (Leb.encodeU v))
+  | .fileIndex raw => .ok (.ofBytes (Leb.encodeU (raw.getD 0)))
 
 /-! ## abbreviations (`src/write/abbrev.rs`) -/
 
